@@ -325,6 +325,48 @@ SHRINK_CALLS = ("::pop_front", "::pop_back", "::pop", "::pop_first", "::pop_last
                 "::take", "::recv", "::try_recv", "::split_off", "::truncate")
 
 
+_CONSUME_CACHE = {}
+CONSUMERS = ("::get_u8", "::get_u16", "::get_u32", "::get_u64", "::get_i8", "::get_i16", "::get_i32", "::get_u16_le", "::get_u32_le",
+             "::copy_to_slice", "::copy_to_bytes")
+
+
+def _consumes_on_success(facts, fn):
+    """index of a `&mut` cursor parameter of crate function fn from which at least one byte is consumed before every
+    successful return (Ok(value) / Ok(Some(value)) / Some(value)), or None. Cached: (index, returns_option_inside)."""
+    if fn in _CONSUME_CACHE:
+        return _CONSUME_CACHE[fn][0]
+    _CONSUME_CACHE[fn] = (None, False)
+    cb = facts.body(fn)
+    for i in range(1, cb.argc + 1):
+        ty = cb.locals[i]["ty"]
+        if not (ty.startswith("&mut ") and ("Bytes" in ty or ty.strip("&mut ").strip() in ("B", "T", "impl bytes::Buf"))):
+            continue
+        nm = cb.locals[i].get("n")
+        cons = [bi for bi, t, p in cb.calls() if p and t["a"]
+                and (p.endswith(CONSUMERS) or (p.endswith(("::advance", "::split_to")) and len(t["a"]) > 1
+                                              and (mir.int_value(cb.term_operand(t["a"][1])) or 0) >= 1))
+                and mir.has(cb.term_operand(t["a"][0]), lambda x: x[0] == "arg" and x[1] == nm)]
+        if not cons:
+            continue
+        succ, opt_inside = [], False
+        for bi, si, st in cb.assigns():
+            if st["p"]["l"] != 0 or "p" in st["p"]:
+                continue
+            v = cb.term_rvalue(st["rv"])
+            if v[0] == "agg" and v[2] in ("Ok", "Some"):
+                inner = v[3][0] if v[3] else None
+                if inner is not None and inner[0] == "agg" and inner[2] == "None":
+                    opt_inside = True
+                    continue
+                if inner is not None and inner[0] == "agg" and inner[2] == "Some":
+                    opt_inside = True
+                succ.append(bi)
+        if succ and all(core.must_pass(cb, sb, cons) for sb in succ):
+            _CONSUME_CACHE[fn] = (i - 1, opt_inside)
+            return i - 1
+    return None
+
+
 def r07_2(ctx):
     """termination of the decoder loops (the 'no unbounded loop' clause): every loop of a network-facing decoder /
     handler that is not an iterator loop or an event loop must make progress on every trip - it consumes from a
@@ -347,8 +389,6 @@ def r07_2(ctx):
         for h, blocks in loops:
             if h in await_hdrs:
                 continue
-            if any(b.blocks[x]["t"]["k"] == "yield" for x in blocks):
-                continue          # event loop of a task: waits for input, not a parser loop
             cand.append((h, blocks))
         if not cand:
             continue
@@ -361,6 +401,30 @@ def r07_2(ctx):
         for bi, t, p in b.calls():
             if p and p.endswith(SHRINK_CALLS) and bi not in prog:
                 prog[bi] = "call %s" % p.split("::")[-1]
+            # the cursor is thrown away: `data = Bytes::new()` ends a `while !data.is_empty()` loop on the next test
+            if p and p.endswith(("Bytes::new", "BytesMut::new")) and "p" not in t["dst"]:
+                tl = t["dst"]["l"]
+                for bj, sj, st in b.assigns():
+                    rv = st["rv"]
+                    if rv["r"] == "use" and rv["o"].get("k") in ("mv", "cp") and rv["o"]["p"].get("l") == tl and "p" not in rv["o"]["p"] \
+                            and "p" not in st["p"] and b.locals[st["p"]["l"]].get("n") and len(b.defs().get(st["p"]["l"], ())) > 1:
+                        prog.setdefault(bj, "cursor %s replaced by an empty buffer" % b.locals[st["p"]["l"]]["n"])
+            # a crate decoder that takes the cursor by `&mut` and consumes from it before every successful return:
+            # the arm taken on success is progress (the arm taken on failure is not)
+            if p and ctx.facts.has_body(p) and bi not in prog:
+                idx = _consumes_on_success(ctx.facts, p)
+                if idx is not None and idx < len(t["a"]):
+                    ct = b.term_call(t)
+                    for sb in range(len(b.blocks)):
+                        if sb in b.cleanup or b.blocks[sb]["t"]["k"] != "switch":
+                            continue
+                        term, outs = b.switch_info(sb)
+                        if term[0] == "discr" and mir.has(term[1], lambda x: x == ct):
+                            inner_opt = term[1] != ct        # discr((call as Ok).0): the Option inside
+                            for tgt, _, m in outs:
+                                if (inner_opt and m == "Some") or (not inner_opt and m in ("Ok", "Some", "Continue")
+                                                                   and not _CONSUME_CACHE[p][1]):
+                                    prog.setdefault(tgt, "decoded by %s (consumes from its cursor on success)" % p.split("::")[-1])
         ordn = {}
         for h, blocks in cand:
             examined += 1
@@ -368,6 +432,13 @@ def r07_2(ctx):
             # a trip = a path from the header back to the header inside the loop
             succs = [t for t, _ in b.succ_edges(h) if t in inner]
             cutb = {x for x in prog if x in inner and x != h}
+            # a loop of a task that contains await points: a trip that suspends is not a spin (it waits for input, a
+            # timer or the peer); what must not exist is a trip that neither makes progress nor suspends
+            # (an `.await` is `loop { match poll() { Ready => break, Pending => yield } }`: a trip of the outer loop
+            # passes the poll call, not necessarily the yield)
+            ylds = {x for x in inner if b.blocks[x]["t"]["k"] == "yield"}
+            ylds |= {bi for bi, t, p in b.calls() if bi in inner and ((p or "").endswith("Future::poll") or (t["f"].get("fn") or "").endswith("Future::poll"))}
+            cutb |= ylds
             trip = None
             if h not in prog:
                 for s0 in succs:
